@@ -288,7 +288,8 @@ def run_case(case):
                 if rec_obj > float(wit) + 1e-6 * max(1, abs(float(wit))):
                     # classify by mechanism: is the library optimal under its own bound w_max = k*max weight on every product multiplicity*weight?
                     from fpverif.props.c08 import classify_mechanism
-                    mech = classify_mechanism(lambda cc, pc: ref.lae_min(cc, demand, k, models.WT[wt], sc, prod_cap=pc), cols, m, mode, rec_obj,
+                    # (under the caller's trust assumption where one is given: the caps may bite only together with it)
+                    mech = classify_mechanism(lambda cc, pc: ref.lae_min(cc, demand, k, models.WT[wt], sc, prod_cap=pc, cons_cols=(trust_cols(cc) if trusted else None)), cols, m, mode, rec_obj,
                                               cols_fn=lambda B_: columns_cyc(G, mode, case["starts"], case["ends"], B_))
                     if mech is None:
                         # neither of the library's own caps explains it: does HiGHS reach the witness value once its presolve is off?
